@@ -403,7 +403,7 @@ fn oracle_string(h: &Hist, p: &mut Probe) -> Result<(), Fail> {
 pub fn run(ctx: &mut Ctx) {
     ctx.rule = "histories Vec<Op> over push/pop/pop2/pop3/top/top2/top3/discard/push_many/try_extend(plain iterator)/set_max_stack_size/queries on Stack<u16> and Stack<String>, unique values per history, capacities {0,1,2,3,5,8,usize::MAX}; lock-step against a Vec+capacity model after every op. non-trivial = length >= 5 with >= 1 failing op and >= 1 multi-element op; distinct by JSON encoding of the history".into();
     ctx.assumptions.push("zero-element insertion above a lowered maximum is unconstrained; is_full only compared while size <= max".into());
-    let (n, len) = ctx.tier.pick((20_000, 40), (1_500_000, 400));
+    let (n, len) = ctx.tier.pick((200_000, 40), (3_000_000, 400));
     ctx.run_prop("hist_u16", n, || hist_strategy(len), oracle_u16);
     ctx.run_prop("hist_string", n / 4, || hist_strategy(len), oracle_string);
     // short histories, dense: many more distinct prefixes of length <= 6
